@@ -474,8 +474,8 @@ type wDlg struct {
 	Kind  string `json:"kind"`  // slice | full | full-tail
 	N     int    `json:"items"` // number of dialogs
 	Page  int    `json:"page"`
-	Order string `json:"order"` // dates: distinct top-message dates; ids: equal dates, distinct top ids; peers: equal dates and ids (channels), peer id decides
-	Via   string `json:"via"`   // iter | collect | foreach
+	Order string `json:"order"`           // dates: distinct top-message dates; ids: equal dates, distinct top ids; peers: equal dates and ids (channels), peer id decides
+	Via   string `json:"via"`             // iter | collect | foreach
 	Probe string `json:"probe,omitempty"` // as for messages
 }
 
